@@ -30,10 +30,10 @@ CHECKS = {
                 text='Partial (stated): BINARY modes only. For DenseVector, DenseVectorBlocked<2>, SparseVector, CSR, CSCR, BCSR<2,2>, Banded, DenseMatrix of sizes 0..4 (length 0, entry-free, arbitrary row pointers) serialize -> deserialize returns identical sizes, scalars, values (bit-identical) and index arrays, with 64-bit and with 32-bit index type in the stream (indices < 2^32). Checkpoints with up to three objects and identifier lengths 1..30 are restored to the right object in a different order, directly and through the BinaryStream image read by the real load(BinaryStream&).',
                 note='Trusted: clang-14 IR, irsym executor (validated against an ASan native build each run), z3 5.1.0. One defect found and fixed (serialising / shallow-copying any container with a zero-sized array aborted). NOT covered: MatrixMarket / exponent text modes (libstdc++ stream formatting and parsing is not in the IR) - the seeded change in the DenseMatrix mtx reader is NOT detected, and the MatrixMarket empty-row defect mentioned in the property text is not examined; float<->double stream conversion, compression, DistFileIO.',
                 ref='3/C05'),
-    'C06': dict(cat='other', engine='E2',
-                technique='bounded symbolic execution of the real filter classes over a symbolic real scalar; z3 (NRA) decides constraint, complement-untouched and idempotence identities',
+    'C06': dict(cat='other', engine='E2+E3',
+                technique='bounded symbolic execution of the real filter classes over a symbolic real scalar; z3 (NRA) decides constraint, complement-untouched and idempotence identities; UnitFilter additionally with a symbolic constrained index set and symbolic matrix column indices in an LLVM-IR symbolic executor (z3 bit-vectors)',
                 text='Every index-set configuration (insertion orders included) in the bound is executed symbolically on the real UnitFilter/UnitFilterBlocked/SlipFilter/MeanFilter/MeanFilterBlocked/FilterChain/FilterSequence/TupleFilter classes; z3 decides over all real vectors, prescribed values, normals and weights that constraints hold exactly, unconstrained entries are unchanged, second application is the identity, filtered matrix rows are unit rows.',
-                note='Trusted: SymReal instantiation, DAG printer, z3 5.1.0. Real arithmetic; non-zero normals, positive mean-filter weights; ignore_nans off. Outside: global (MPI) filters, rounding.',
+                note='Trusted: SymReal instantiation, DAG printer, z3 5.1.0. Real arithmetic; non-zero normals, positive mean-filter weights; ignore_nans off. In the E2 part index sets are swept concretely; in the E3 structural slice (UnitFilter on vectors and CSR matrices) the index set and the column indices are symbolic, trusting the clang-14 IR and my executor (co-executed against an ASan native build each run). Outside: global (MPI) filters, rounding.',
                 ref='3/C06'),
     'C07': dict(cat='other', engine='E2',
                 technique='bounded symbolic execution of the real IterativeSolver stopping logic and of real Richardson/PCG/BiCGStab/PCR objects over a symbolic real scalar; z3 decides status => predicate implications and reported-defect == true-residual identities',
